@@ -1,1 +1,9 @@
 //! Process isolation: placeholder, filled in with the worker pool (see DESIGN.md §3.2).
+
+/// Debug aid: when VERIF_DUMP names a directory, write `bytes` there as `<name>` (used with `vp replay`).
+pub fn dump(name: &str, bytes: &[u8]) {
+    if let Ok(d) = std::env::var("VERIF_DUMP") {
+        let _ = std::fs::create_dir_all(&d);
+        let _ = std::fs::write(std::path::Path::new(&d).join(name), bytes);
+    }
+}
